@@ -41,6 +41,9 @@ type artefact struct {
 	name   string
 	file   []byte
 	tables map[string][]byte
+	// byte ranges of small structures located inside tables["CFF "]
+	// (FDSelect), at which some of the faults are aimed
+	cffRegions [][2]int
 }
 
 var pool []*artefact
@@ -77,6 +80,9 @@ func setup(tier string, seed uint64) {
 	for i := 0; i < 24; i++ {
 		t := tape.New(tape.CaseSeed(seed, "C02-corpus", uint64(i)))
 		f := simgen.GenFont(t, simgen.Kind(i%3), i%2)
+		if i%4 == 1 {
+			simgen.GenCMapMode(t, f, 1) // a format 12 character map
+		}
 		simgen.AddLayoutTables(t, f)
 		k := kern.Info{}
 		for j := 0; j < 5; j++ {
@@ -85,7 +91,74 @@ func setup(tier string, seed uint64) {
 		b := writeFont(f)
 		a := &artefact{name: fmt.Sprintf("gen%02d", i), file: b, tables: tablesOf(b)}
 		a.tables["kern"] = k.Encode()
+		if o, ok := f.Outlines.(*cff.Outlines); ok && o.IsCIDKeyed() {
+			enc := simgen.FDSelect3(func(g int) int { return o.FDSelect(glyph.ID(g)) }, len(o.Glyphs))
+			if len(enc) >= len(o.Glyphs)+1 {
+				// the writer prefers format 0: one byte per glyph
+				enc = make([]byte, len(o.Glyphs)+1)
+				for g := range o.Glyphs {
+					enc[g+1] = byte(o.FDSelect(glyph.ID(g)))
+				}
+			}
+			if at := bytes.Index(a.tables["CFF "], enc); at >= 0 && len(enc) > 8 {
+				a.cffRegions = append(a.cffRegions, [2]int{at, at + len(enc)})
+			}
+		}
 		pool = append(pool, a)
+	}
+	// CID-keyed fonts whose glyphs are assigned to two or three font
+	// dictionaries in runs (FDSelect format 3 with several ranges)
+	for i := 0; i < 6; i++ {
+		t := tape.New(tape.CaseSeed(seed, "C02-cid-runs", uint64(i)))
+		f := simgen.GenFont(t, simgen.KindCID, i%2)
+		o := f.Outlines.(*cff.Outlines)
+		for len(o.Private) < 2+i%2 {
+			o.Private = append(o.Private, o.Private[0])
+			o.FontMatrices = append(o.FontMatrices, o.FontMatrices[0])
+		}
+		n := len(o.Glyphs)
+		sel := make([]int, n)
+		fd, left := 0, 0
+		for g := range sel {
+			if left == 0 {
+				left = t.Range(2, 12)
+				fd = (fd + 1 + t.Draw(len(o.Private)-1)) % len(o.Private)
+			}
+			left--
+			sel[g] = fd
+		}
+		o.FDSelect = func(g glyph.ID) int { return sel[g] }
+		b := writeFont(f)
+		a := &artefact{name: fmt.Sprintf("cid-runs%02d", i), file: b, tables: tablesOf(b)}
+		enc := simgen.FDSelect3(func(g int) int { return sel[g] }, n)
+		if at := bytes.Index(a.tables["CFF "], enc); at >= 0 && len(enc) > 8 && len(enc) < n+1 {
+			a.cffRegions = append(a.cffRegions, [2]int{at, at + len(enc)})
+		}
+		pool = append(pool, a)
+	}
+	nLocated := 0
+	for _, a := range pool {
+		nLocated += len(a.cffRegions)
+	}
+	if nLocated == 0 {
+		panic("worker: no FDSelect structure located in the corpus")
+	}
+	// offset-sharing GSUB tables assembled by hand: many lookup records that
+	// share one lookup table (small file, large decoded structure)
+	for i, nl := range []int{3, 400, 2990, 2999, 3001, 5998, 6002, 6552, 7000, 7001, 12000, 30000} {
+		for _, mf := range []bool{false, true} {
+			if nl < 5000 && mf != (i%2 == 0) {
+				continue
+			}
+			sub := i % 3 // lookups without subtables are legal, too
+			tab := simgen.AliasBomb(nl, sub, mf)
+			w := simio.NewWriter()
+			if _, err := header.Write(w, header.ScalerTypeTrueType, map[string][]byte{"GSUB": tab}); err != nil {
+				panic(err)
+			}
+			pool = append(pool, &artefact{name: fmt.Sprintf("gsub-%d-lookups-sharing-one-table(%d subtables,mark filtering %v)", nl, sub, mf),
+				file: w.Disk, tables: map[string][]byte{"GSUB": tab}})
+		}
 	}
 	// valid files in unusual but accepted shapes: optional tables missing
 	// (Read accepts CFF fonts without maxp/head/hmtx/OS/2/post/name and
@@ -466,7 +539,17 @@ func run(c *wk.Case) {
 			src, srcName = handCFF[i], fmt.Sprintf("hand-made CFF with subroutines #%d", i)
 			c.Count("handmade_cff_cases", 1)
 		}
-		input = damage(c, src, pool[t.Draw(len(pool))].tables[tag])
+		if dec == "cff.Read" && len(a.cffRegions) > 0 && len(src) > 0 && &src[0] == &a.tables[tag][0] && t.Chance(1, 3) {
+			// aim at a small structure located inside the table (FDSelect)
+			r := a.cffRegions[t.Draw(len(a.cffRegions))]
+			var f simgen.Fault
+			input, f = simgen.Corrupt(t, src, r[0], r[1], nil)
+			c.Count("fault_"+f.Kind, 1)
+			c.Count("faults_aimed_at_FDSelect", 1)
+			c.Logf("fault (aimed at FDSelect %v): %v", r, f)
+		} else {
+			input = damage(c, src, pool[t.Draw(len(pool))].tables[tag])
+		}
 		c.Logf("%s on table %q of %s (%d bytes)", dec, tag, srcName, len(input))
 		if len(input) <= 400 {
 			c.Logf("input bytes: %x", input)
